@@ -117,7 +117,7 @@ func (r *hubRig) item(registered int, emit bool) uint64 {
 	e := &proto.Event{Type: proto.Event_PUT, Revision: r.rev, Kv: &proto.KeyValue{Key: []byte("/h/k"), Value: []byte("v"), Revision: r.rev}}
 	before := r.totalLen() + int(atomic.LoadInt32(&r.hk.drops))
 	r.in <- []*proto.Event{e}
-	if !waitUntil(5*time.Second, func() bool {
+	if !waitUntil(20*time.Second, func() bool {
 		return r.totalLen()+int(atomic.LoadInt32(&r.hk.drops)) >= before+registered
 	}) {
 		r.fail = fmt.Sprintf("hub did not fan out item rev %d to %d subscribers within 5s", r.rev, registered)
@@ -206,7 +206,7 @@ func hubCorpus(w *coll) {
 		r.item(2, true) // dropped for `slow`
 		r.drain(fast, 1)
 		if variant == 0 {
-			waitUntil(5*time.Second, func() bool { return atomic.LoadInt32(&r.hk.parked) == 1 })
+			waitUntil(20*time.Second, func() bool { return atomic.LoadInt32(&r.hk.parked) == 1 })
 			r.sc.drops(int(atomic.LoadInt32(&r.hk.drops)))
 			r.sc.subs(r.hub.VerifSubs())
 			r.observe(slow, false)
@@ -215,11 +215,11 @@ func hubCorpus(w *coll) {
 			r.drain(fast, 1)
 			r.observe(slow, false)
 			r.hk.releaseDeleters()
-			waitUntil(5*time.Second, func() bool { return r.hub.VerifSubs() == 1 })
+			waitUntil(20*time.Second, func() bool { return r.hub.VerifSubs() == 1 })
 			r.sc.lab(lW("LHubDelete", slow))
 			r.sc.subs(r.hub.VerifSubs())
 		} else {
-			waitUntil(5*time.Second, func() bool { return r.hub.VerifSubs() == 1 })
+			waitUntil(20*time.Second, func() bool { return r.hub.VerifSubs() == 1 })
 			r.sc.lab(lW("LHubDelete", slow))
 			r.sc.drops(int(atomic.LoadInt32(&r.hk.drops)))
 			r.sc.subs(r.hub.VerifSubs())
@@ -263,7 +263,7 @@ func hubCases(w *coll, rnd *lib.Rand, tier string) {
 				r.subs[x].cancel()
 				r.sc.lab(lW("LCancel", x))
 				if reg[x] {
-					waitUntil(5*time.Second, func() bool { return r.hub.VerifSubs() == len(reg)-1 })
+					waitUntil(20*time.Second, func() bool { return r.hub.VerifSubs() == len(reg)-1 })
 					delete(reg, x)
 				} else {
 					time.Sleep(200 * time.Microsecond)
